@@ -148,6 +148,22 @@ Proof.
   apply last_is_split in E. rewrite E in H. rewrite forallb_app in H. apply andb_true_iff in H as [_ H]. discriminate.
 Qed.
 
+(* len(ref) == len("LicenseRef-"), for a ref that starts with the prefix: the idstring is empty *)
+Lemma prefixb_len p : forall s, prefixb p s = true -> (length p <= length s)%nat.
+Proof.
+  induction p as [|c p IH]; intros s H; [cbn; lia|]. destruct s as [|d s]; [discriminate|]. cbn [prefixb] in H.
+  apply andb_true_iff in H as [_ H]. apply IH in H. cbn [length]. lia.
+Qed.
+Lemma ref_len_empty core : prefixb licenseref_lc (afold core) = true ->
+  Nat.eqb (length core) (length licenseref_prefix) = negb (nonemptyb (skipn 11 core)).
+Proof.
+  intros H. apply prefixb_len in H. unfold afold in H. rewrite map_length in H. change (length licenseref_lc) with 11%nat in H.
+  change (length licenseref_prefix) with 11%nat. pose proof (skipn_length 11 core) as L.
+  destruct (skipn 11 core) as [|x r]; cbn [length nonemptyb negb] in *.
+  - apply Nat.eqb_eq. lia.
+  - apply Nat.eqb_neq. lia.
+Qed.
+
 (* ---------------------------------------------------------------- token classes: lower() in the code, ASCII folding in the spec *)
 Lemma classify_code o :
   match classify o with
@@ -283,7 +299,7 @@ Lemma lic_canon_not_WITH w l : lic_canon lics w = Some l -> streq l W_WITH = fal
 Proof.
   unfold lic_canon. destruct (strip_plus w) as [core plus].
   destruct (prefixb licenseref_lc (afold core)).
-  - destruct (forallb ref_char core); [|discriminate]. intros [= <-]. reflexivity.
+  - destruct (forallb ref_char core && nonemptyb (skipn 11 core)); [|discriminate]. intros [= <-]. reflexivity.
   - destruct (find_id core (map snd lics)) as [id|] eqn:E; [|discriminate]. intros [= <-].
     apply find_id_in in E as [E _]. destruct (table_entry lics id TOK_l E) as (_ & _ & P & _). now apply not_WITH_app.
 Qed.
@@ -304,18 +320,18 @@ Proof.
   - apply last_is_split in P. set (core := removelast o) in *.
     assert (E1 : removelast (lower o) = lower core) by (rewrite P, lower_app; cbn [lower flat_map lower_char app]; change (lower_char 43) with [43]; apply removelast_last).
     rewrite E1. rewrite prefixb_lower_afold by (try reflexivity; right; reflexivity).
-    destruct (prefixb licenseref_lc (afold core)).
+    destruct (prefixb licenseref_lc (afold core)) eqn:PF.
     + cbn [length]. rewrite firstn_removelast. fold core.
-      rewrite ref_match_clean by (now apply forallb_removelast).
-      destruct (forallb ref_char core); reflexivity.
+      rewrite ref_match_clean by (now apply forallb_removelast). rewrite (ref_len_empty core PF).
+      destruct (forallb ref_char core); destruct (nonemptyb (skipn 11 core)); reflexivity.
     + assert (EA : forallb asciib o = forallb asciib core) by (rewrite P, forallb_app; cbn [forallb]; change (asciib 43) with true; now rewrite !andb_true_r).
       destruct (lookup_guard lics o core TOK_l EA) as [G L]. rewrite G.
       destruct (find_id core (map snd lics)) as [id|] eqn:F; cbn [is_some negb]; [|reflexivity].
       rewrite L; [reflexivity|]. cbn [is_some negb] in G. apply orb_false_iff in G as [_ G]. now apply negb_false_iff in G.
   - rewrite prefixb_lower_afold by (try reflexivity; right; reflexivity).
-    destruct (prefixb licenseref_lc (afold o)).
-    + cbn [length]. rewrite Nat.sub_0_r, firstn_all. rewrite ref_match_clean by exact W.
-      destruct (forallb ref_char o); reflexivity.
+    destruct (prefixb licenseref_lc (afold o)) eqn:PF.
+    + cbn [length]. rewrite Nat.sub_0_r, firstn_all. rewrite ref_match_clean by exact W. rewrite (ref_len_empty o PF).
+      destruct (forallb ref_char o); destruct (nonemptyb (skipn 11 o)); reflexivity.
     + destruct (lookup_guard lics o o TOK_l eq_refl) as [G L]. rewrite G.
       destruct (find_id o (map snd lics)) as [id|] eqn:F; cbn [is_some negb]; [|reflexivity].
       rewrite L; [now rewrite !app_nil_r|]. cbn [is_some negb] in G. apply orb_false_iff in G as [_ G]. now apply negb_false_iff in G.
@@ -434,7 +450,7 @@ Lemma lic_canon_word w l : lic_canon lics w = Some l -> is_word l = true.
 Proof.
   unfold lic_canon. pose proof (strip_plus_cases w) as P. destruct (strip_plus w) as [core plus]. cbn [snd] in P.
   destruct (prefixb licenseref_lc (afold core)).
-  - destruct (forallb ref_char core) eqn:R; [|discriminate].
+  - destruct (forallb ref_char core) eqn:R; [|discriminate]. destruct (nonemptyb (skipn 11 core)); [|discriminate]. cbn [andb].
     assert (SK : forallb wordc (skipn 11 core) = true).
     { apply forallb_skipn. rewrite forallb_forall in *. intros c Hc. apply ref_char_wordc. auto. }
     intros E. injection E as <-.
@@ -533,7 +549,7 @@ Proof.
   - destruct (is_opword t).
     + destruct (streq t w_with && negb al); [discriminate|apply IH].
     + cbv zeta. destruct (prefixb licenseref_lc (if last_is 43 t then removelast t else t)).
-      * destruct (ref_match _); [apply IH|discriminate].
+      * destruct (negb (ref_match _) || _); [discriminate|apply IH].
       * destruct (mem _ lics) eqn:M; [|discriminate]. destruct (negb (forallb asciib o)); [discriminate|]. destruct (mem_lookup _ _ M) as (id & ->). apply IH.
 Qed.
 Theorem canon_no_crash lics excs s : canon lics excs s <> Crash.
